@@ -71,13 +71,19 @@ def accepts(criteria, acc, cur, members):
     return all(accepts_one(c, acc, cur, members) for c in criteria)
 
 
-def single_pass(feats, criteria):
+def single_pass(feats, criteria, rejected_inside=None):
     """Runs (lists of input indexes) of one pass: a feature joins the current run exactly when every
-    criterion accepts (run so far, feature); otherwise it starts the next run."""
+    criterion accepts (run so far, feature); otherwise it starts the next run.
+    rejected_inside: optional list that receives (index, names of the rejecting criteria) of every feature that was
+    rejected although it lies inside the extent of the run so far (bookkeeping for evidence counters)."""
     runs = []
     acc = None
     members = []
     for i, f in enumerate(feats):
+        if (rejected_inside is not None and acc is not None and acc["start"] <= f["start"] and f["end"] <= acc["end"]
+                and not accepts(criteria, acc, f, members)):
+            rejected_inside.append((i, [c if isinstance(c, str) else c[1] if c[0] == "custom" else c[0]
+                                        for c in criteria if not accepts_one(c, acc, f, members)]))
         if acc is not None and accepts(criteria, acc, f, members):
             members.append(i)
             acc["start"] = min(acc["start"], f["start"])
@@ -91,6 +97,17 @@ def single_pass(feats, criteria):
     if acc is not None:
         runs.append(members)
     return runs
+
+
+def detached_nested_members(feats, run):
+    """Members (from the third on) of a run that lie inside an earlier member other than their immediate predecessor
+    and end after that predecessor: [(index, begins beyond predecessor.end + 1)]."""
+    out = []
+    for k in range(2, len(run)):
+        y, pred = feats[run[k]], feats[run[k - 1]]
+        if y["end"] > pred["end"] and any(feats[x]["start"] <= y["start"] and y["end"] <= feats[x]["end"] for x in run[:k - 1]):
+            out.append((run[k], y["start"] > pred["end"] + 1))
+    return out
 
 
 def extent(feats, run):
